@@ -24,9 +24,10 @@ def run(rep, tier, seed):
     thorough = tier == "thorough"
     r = vlib.tlc_design("Unpack", "Unpack.cfg", work, workers=4, timeout=3000)
     rep.add_tlc("Unpack: Confined for all archives of <= 3 entries (ASSUME)", r)
-    r2 = vlib.tlc("Unpack", "Unpack.dev.cfg", work, workers=4, timeout=3000)
-    if r2.ok or "Assumption" not in r2.out:
-        raise vlib.Infra("Unpack.tla without name validation is expected to violate Confined (non-vacuity check)")
+    for wcfg in ("Unpack.dev.cfg", "Unpack.names.cfg"):     # the code as found (F9) and between the repairs (F22) must escape in the model
+        r2 = vlib.tlc("Unpack", wcfg, work, workers=4, timeout=3000)
+        if r2.ok or "Assumption" not in r2.out:
+            raise vlib.Infra("Unpack.tla with %s is expected to violate Confined (non-vacuity check)" % wcfg)
     trace = os.path.join(work, "trace.ndjson")
     p = vlib.sh("%s -seed %d -n %d -enum %d -out %s -dir %s" % (binp, seed, 20000 if thorough else 2500, 2, trace, os.path.join(work, "data")), timeout=3000, check=False)
     if p.returncode != 0:
@@ -40,11 +41,12 @@ def run(rep, tier, seed):
     else:
         m = re.search(r"<<\s*(\d+),", info.get("bad", "") or "")
         evt = events[int(m.group(1)) - 1] if m and int(m.group(1)) <= len(events) else None
-        rep.violation("unpacking escaped the destination: entries %s via %s changed %s" % (
+        rep.violation("unpacking escaped the destination: root %s%s, entries %s via %s changed %s" % (
+            (evt or {}).get("root"), " (destination absent)" if (evt or {}).get("dstabsent") else "",
             [(x["raw"], x["kind"], x["target"]) for x in (evt or {}).get("entries", [])], (evt or {}).get("via"), (evt or {}).get("outside")), {"events": [evt] if evt else [], "info": info})
     succ = 0
     for e in events:
-        rep.case([[x["raw"], x["kind"], x["target"]] for x in e["entries"]] + [e["via"]], len(e["entries"]) >= 2)
+        rep.case([[x["raw"], x["kind"], x["target"]] for x in e["entries"]] + [e["via"], e["root"]["kind"], e["root"]["target"], e["dstabsent"]], len(e["entries"]) >= 2)
         succ += 1 if e["ok"] else 0
     rep.extra["unpacks_that_succeeded"] = succ
     rep.sample(events[40:43])
